@@ -79,7 +79,7 @@ Store(c, sy, fl) ==
       tmp |-> IF sy[3] = "none" THEN None1 ELSE StoreTmp(sy[3], c[1], c[2], c[3], c[4]) ]
 
 \* ------------------------------------------------------------ value lattice
-Lengths == { I(5), I(-3), Q(1, 2) }
+Lengths == { I(5), I(-3), Q(1, 2), I(0) }      \* 0: a falsy value is a value
 Radii   == { I(5), I(13) }
 Taus    == { I(5), I(60) }
 PhiAngles   == { <<Q(3, 5), Q(4, 5)>>, <<Q(-5, 13), Q(12, 13)>>, <<I(0), I(-1)>> }
